@@ -37,7 +37,7 @@ int valid_seteuid(object ob, string newuid) {
   else if (p == "deny") r = 0;
   else if (p == "own") r = (newuid == getuid(ob));
   else r = 1;
-  if (log_applies) vlog("\"e\":\"Ask\",\"apply\":\"valid_seteuid\",\"ob\":" + jq(short_name(ob)) + ",\"uid\":" + jq(newuid) + ",\"r\":" + r);
+  if (log_applies) vlog("\"e\":\"Ask\",\"apply\":\"valid_seteuid\",\"ob\":" + jq(file_name(ob)) + ",\"uid\":" + jq(newuid) + ",\"r\":" + r);
   return r;
 }
 
